@@ -32,6 +32,7 @@ func (c08) Cases(tier string, seed int64, kf *KnownFindings) []Case {
 	add := func(c Case) { c.Sub = -1; cs = append(cs, c) }
 	add(Case{Kind: "table"})
 	add(Case{Kind: "bulk", Seed: Mix(seed, 4243)})
+	add(Case{Kind: "f32edge", Seed: Mix(seed, 4246), Count: 400})
 	if tier == "quick" {
 		add(Case{Kind: "ints", A: -70000, B: -35000})
 		add(Case{Kind: "ints", A: -35000, B: 0})
@@ -260,6 +261,37 @@ func (c08) Run(c Case, env *Env) Result {
 		}
 		res.NTCount = int64(c.Count)
 		res.Sample(map[string]interface{}{"kind": "random 64-bit patterns", "seed": c.Seed, "count": c.Count})
+	case "f32edge":
+		// float64 values whose low 29 mantissa bits are clear (so they LOOK like float32) across the
+		// exponents where float32 turns subnormal, overflows or underflows: only some are exact float32
+		r := rand.New(rand.NewSource(c.Seed))
+		n := 0
+		for e := -156; e <= -120; e++ {
+			for k := 0; k < c.Count; k++ {
+				m := uint64(r.Uint32()>>9) << 29 // 23 significant mantissa bits
+				if k < 8 {
+					m = uint64(k) << 49 // 1.0, 1.125, 1.25, ... 1.875 x 2^e
+				}
+				f := math.Float64frombits(uint64(1023+e)<<52 | m)
+				if c.Sub < 0 || c.Sub == n {
+					check(f, n, false)
+					check(-f, n, false)
+				}
+				n++
+			}
+		}
+		for e := 126; e <= 129; e++ {
+			for k := 0; k < c.Count; k++ {
+				m := uint64(r.Uint32()>>9) << 29
+				f := math.Float64frombits(uint64(1023+e)<<52 | m)
+				if c.Sub < 0 || c.Sub == n {
+					check(f, n, false)
+				}
+				n++
+			}
+		}
+		res.NTCount = int64(n)
+		res.Sample(map[string]interface{}{"kind": "float64 values with 23-bit mantissas around the float32 subnormal / overflow boundaries", "values": n, "example": "1.5 x 2^-149 (looks like a float32, is not one)"})
 	case "fields":
 		c08fields(c, env, &res)
 	case "bulk":
@@ -352,6 +384,29 @@ func c08fields(c Case, env *Env, res *Result) {
 				}
 				x, ok := m["k"].(float64)
 				return x, ok
+			}
+		}
+		// a double field the receiving type does not have, in each wire form, in front of the float fields:
+		// stepping over it must leave the following numbers alone
+		if j%5 == 0 {
+			res.Count("float_fields_after_an_unknown_double_field", 1)
+			gone := []float64{0, 1, 37, -128, 1000, -32768, 12.25, 0.001, 0.1, math.Pi, 1e300}[(j/5)%11]
+			tm, _ := hessian.ExtractTypeNameMap(&zoo.Scalars{})
+			ob := hspec.Object("Scalars", []string{"gone", "f64", "gone2", "f32", "s"}, hspec.Double(gone), hspec.Double(f), hspec.Double(gone), hspec.Double(float64(f32)), hspec.String("end"))
+			rb, _ := hspec.Encode(ob, hspec.Canonical{}, hspec.EncOpts{})
+			var dv interface{}
+			var derr error
+			pi, _ := Guard(func() { dv, derr = hessian.ToObject(rb, tm) })
+			sc, _ := dv.(*zoo.Scalars)
+			switch {
+			case pi != nil:
+				viol(pi.Class, "decode of "+hexClip(rb)+" panicked: "+pi.Msg)
+			case derr != nil:
+				viol("dec-error", fmt.Sprintf("(%s) %v", hexClip(rb), derr))
+			case sc == nil:
+				viol("mismatch:shape", fmt.Sprintf("(%s) decoded as %T", hexClip(rb), dv))
+			case !sameFloat(sc.F64, f) || !sameFloat(float64(sc.F32), float64(f32)) || sc.S != "end":
+				viol("mismatch:value", fmt.Sprintf("(%s) with unknown double fields (%v) in front: decoded f64=%v f32=%v s=%q", hexClip(rb), gone, sc.F64, sc.F32, sc.S))
 			}
 		}
 		o := roundTrip(val)
